@@ -102,9 +102,32 @@ def run_differential(prog, script, fail: Callable[[str, Optional[str]], None], c
             if n_top[0] % 3 == 2:
                 nbs.append(pipe.open(max_qubits=1))
                 count("neighbour_applications_opened", 1)
-                if len(nbs) > 2:
+                if len(nbs) > 2 and neighbours != "loops":
                     nbs.pop(0).close()
         drv.before_top = neighbour
+        if neighbours == "loops":
+            # ... and, while this application is inside the body of one of its own constructs, a neighbour builds and sends a few
+            # complete retry loops (loop_until) of its own
+            state = {}
+
+            def neighbour_loops(_st):
+                n_top[0] += 1
+                if n_top[0] % 4 != 1:
+                    return
+                from netqasm.sdk.constraint import ValueAtMostConstraint
+                if "conn" not in state:
+                    state["conn"] = pipe.open(max_qubits=1)
+                    state["arr"] = state["conn"].new_array(1, init_values=[3])
+                    nbs.append(state["conn"])
+                nbc = state["conn"]
+                for _ in range(2):
+                    with nbc.loop_until(2) as lp:
+                        f = state["arr"].get_future_index(0)
+                        f.add(-1)
+                        lp.set_exit_condition(ValueAtMostConstraint(f, 0))
+                nbc.flush()
+                count("neighbour_retry_loops_built_inside_a_body", 2)
+            drv.before_nested = neighbour_loops
     per_segment = isinstance(templates, list)
     drv.tmpl_values = dict(templates or {}) if not per_segment else {}
     ex = pipe.ex
